@@ -77,7 +77,9 @@ class AbsPDF:
 
     @contextlib.contextmanager
     def temp_params(self, var):
-        params = self.get_params()
+        # the values to put back are the stored ones, not the masked ones
+        with self.vm.mask_params({}):
+            params = self.get_params()
         try:
             self.set_params(var)
             yield var
